@@ -228,14 +228,14 @@ def read_model(ctx):
     ok = s3[0] == 'ok' and tables(obj) == [(c, r) for c, r in w2] and obj.attrs['_Log__lammps_version'] == '3 Mar 2020' and obj.attrs['_Log__lammps_date'] == ('DATE', 2020, 3, 3)
     ctx.ob('APPEND', loc, 'append=False forgets the earlier runs, version and date before reading', bool(ok), str((tables(obj), obj.attrs['_Log__lammps_version']))[:200], node=read, key='overwrite')
     # months
-    rv = ctx.fn(LOG, 'Log.__read_lammps_version')
+    rv = ctx.fn_opt(LOG, 'Log.__read_lammps_version') or read
     bad = []
     for k, mname in enumerate(['Jan', 'Feb', 'Mar', 'Apr', 'May', 'Jun', 'Jul', 'Aug', 'Sep', 'Oct', 'Nov', 'Dec']):
         o = new_log()
         st = do_read(o, ['LAMMPS (7 %s 2019)\n' % mname, 'units real\n'])
         if st[0] != 'ok' or o.attrs['_Log__lammps_date'] != ('DATE', 2019, k + 1, 7) or o.attrs['_Log__lammps_version'] != '7 %s 2019' % mname:
             bad.append((mname, o.attrs['_Log__lammps_date']))
-    ctx.ob('TRIGGERS', LOG + '::Log.__read_lammps_version', 'the twelve month abbreviations give months 1..12', not bad, str(bad), node=rv, key='months')
+    ctx.ob('TRIGGERS', loc, 'the twelve month abbreviations give months 1..12', not bad, str(bad), node=rv, key='months')
     o = new_log()
     do_read(o, ['  LAMMPS (7 Aug 2019)\n', 'Reading LAMMPS (data) file\n'])
     ctx.ob('TRIGGERS', loc, 'only a line that starts with "LAMMPS (" is a version banner', o.attrs['_Log__lammps_version'] is None, str(o.attrs['_Log__lammps_version']), node=read, key='banner start')
